@@ -452,12 +452,13 @@ pub fn run(args: &Args) -> Report {
         }
     }
     let plan = Plan {
-        ks: if thorough { vec![0, 1, 2, 3, 4] } else { vec![0, 1, 2, 3] },
+        ks: if thorough { vec![0, 1, 2, 3, 4] } else { vec![0, 1, 2] },
         env: 0,
         fault: 0,
-        total_wall: Duration::from_secs(if thorough { 1500 } else { 25 }),
+        total_wall: Duration::from_secs(if thorough { 1500 } else { 50 }),
         max_execs_per_case: 2_000_000,
         required_witnesses: W_ZERO_SKIPPED | W_LIVE_SKIPPED | W_COLLISION | W_REJECTED_GAVE_UP | W_RETRY_SUCCEEDED | W_ALL_PAIRED,
+        adaptive: thorough,
         witness_names: &[("zero_draw_skipped", W_ZERO_SKIPPED), ("live_id_draw_skipped", W_LIVE_SKIPPED), ("id_collision_and_retry", W_COLLISION), ("gave_up_with_FlowIdRejected", W_REJECTED_GAVE_UP), ("retry_succeeded", W_RETRY_SUCCEEDED), ("all_requests_paired", W_ALL_PAIRED)],
     };
     rep.rule = "psim: two real endpoints with scripted flow-id generators (first draw 0, draw of a live id, identical draws on both sides, repeated collisions), concurrent opens from both sides, hosts {empty, 255 bytes >= 0x80, binary} and ports {0,1,65535}, every schedule <= k deviations; plus a raw peer rejecting 0..3 proposals then accepting/silent, for max_flow_id_retries 1..3. Oracle: successful requests pair 1:1 with accepted streams carrying exactly the requested host/port and tagged data end to end; send credit at hand-out equals the other side's window (hook); no Connect with id 0 / a live id on the wire; failures only as FlowIdRejected after exactly max_flow_id_retries Connects; nothing pending, tables empty at the end".into();
